@@ -435,7 +435,7 @@ fn body() {
         %s
     });
 %s}
-''' % (prop, name, what.replace('\n', ' '), prop, path, PG.HELPERS_RS, limit, lets, body, check)
+''' % (prop, name, what.replace('\n', ' '), prop, path, PG.HELPERS_RS + (PG.STRUCT_DEFS if PG.uses_structs(progast) else ''), limit, lets, body, check)
 
 
 def run_templates(rep, prop, templates, tag, window=3):
